@@ -190,7 +190,7 @@ import itertools
 import struct
 import warnings
 
-from common import Check, ensure_impl_path, run_model, vm_crosscheck  # noqa: E402
+from common import Check, ensure_impl_path, run_model, run_model_parallel, vm_crosscheck  # noqa: E402
 
 PROP = 'C10'
 _INFO = None
@@ -339,7 +339,7 @@ def gen_valid(rng, suf, be):
                 big = 32767 if 'nifti2' not in suf else 2 ** 40
                 h.set_data_shape(tuple(rng.choice([1, 1, 2, 3, 5, 7, 64, big]) for _ in range(nd)))
                 if rng.random() < 0.8:
-                    h.set_zooms(tuple(rng.choice([0.5, 1.0, 2.0, 3.75, 1e-5, 1e7, 0.1]) for _ in range(nd)))
+                    h.set_zooms(tuple(rng.choice([0.5, 1.0, 2.0, 3.75, 1e-5, 1e7, 0.1, np.nan, np.inf]) for _ in range(nd)))
             if suf in ('spm99', 'spm2') and rng.random() < 0.6:
                 h.set_slope_inter(rng.choice([1.0, 2.5, -0.125, 1e-10, None]), None)
             if suf in ('spm99', 'spm2') and rng.random() < 0.6 and len(h.get_data_shape()) >= 3:
@@ -396,6 +396,20 @@ def part_a_case(chk, suf, hdr, valid, tag, lines, recs):
     rec['rt'] = rebuilt.binaryblock
     if suf == 'mgh' and b[:4] == b'\0\0\0\1':      # version 1: nothing for check_fix to repair
         rec['rt_check'] = klass(b, check=True).binaryblock
+    if suf != 'mgh':
+        # klass(bytes, endianness) with the default check=True: repaired header, HeaderDataError for problems of level >= 40,
+        # OverflowError in the one case the model knows - anything else is a failure of the constructor
+        from nibabel.spatialimages import HeaderDataError
+        try:
+            with warnings.catch_warnings():
+                warnings.simplefilter('ignore')
+                rec['ck'] = 'ok ' + hx(klass(b, code_of(be), check=True).binaryblock)
+        except HeaderDataError:
+            rec['ck'] = 'err HeaderDataError'
+        except OverflowError:
+            rec['ck'] = 'err raise'
+        except Exception as e:  # noqa: BLE001
+            rec['ck'] = f'err unexpected:{type(e).__name__}: {str(e)[:80]}'
     rec['fields'] = fmt_fields(field_values(suf, rebuilt))
     guessed = klass(b, check=False) if suf == 'mgh' else klass(b, None, check=False)
     rec['guess'] = be_of(guessed.endianness)
@@ -431,6 +445,8 @@ def part_a_case(chk, suf, hdr, valid, tag, lines, recs):
     lines.append(f'a{i}.g frombytes {suf} {nb} - {hx(b)}')
     lines.append(f'a{i}.s swap {suf} {nb} - {be} {hx(b)}')
     lines.append(f'a{i}.t swap {suf} {nb} {be} {be} {hx(b)}')
+    if 'ck' in rec:
+        lines.append(f'a{i}.k check {suf} 1 {be} {hx(b)}')
     if 'swap_obj' in rec:
         sbe, sb = rec['swap_obj']
         lines.append(f'a{i}.sf fields {suf} {sbe} {hx(sb)}')
@@ -456,6 +472,16 @@ def part_a_compare(chk, recs, mod):
                 dis.append(('binaryblock', mod.get(f'a{i}.r', '')[:100], exp_rt[:100]))
             if mod.get(f'a{i}.g') != f'ok {rec["guess"]} {hx(b)}':
                 dis.append(('guessed-endian', mod.get(f'a{i}.g', '')[:20], rec['guess']))
+        if 'ck' in rec and HAVE_MODEL:
+            mk = mod.get(f'a{i}.k', '')
+            if mk.startswith('ok '):
+                mb, mr = mk.split()[1], mk.split()[2]
+                fatal = mr != '-' and any(int(x.split(':')[0]) >= 40 for x in mr.split(','))
+                exp_ck = 'err HeaderDataError' if fatal else 'ok ' + mb
+            else:
+                exp_ck = 'err raise'
+            if rec['ck'] != exp_ck and not rec['ck'].startswith('err unexpected'):
+                dis.append(('klass(bytes, check=True)', exp_ck[:100], rec['ck'][:100]))
         if rec['rt'] == b and mod.get(f'a{i}.f') != 'ok ' + rec['fields']:
             dis.append(('fields', mod.get(f'a{i}.f', '')[:200], rec['fields'][:200]))
         if mod.get(f'a{i}.s') != rec['swap']:
@@ -474,6 +500,8 @@ def part_a_compare(chk, recs, mod):
             pred = 'header built from bytes does not serialise to the same bytes'
             if suf == 'mgh' and mgh_flag_zero(b):
                 known = True
+        elif rec.get('ck', '').startswith('err unexpected'):
+            pred = 'building the header from its bytes (check=True) raised ' + rec['ck'][15:]
         elif rec.get('rt_check', b) != b:
             pred = 'header built from bytes with check=True (no problems to repair) does not serialise to the same bytes'
         elif rec['valid'] and rec['guess'] != be:
@@ -496,11 +524,18 @@ def mgh_flag_zero(b):
 
 
 HAVE_MODEL = True
+_SEEN = {}
 
 
 def report(chk, case, pred, known, dis, model_out=None):
     if not HAVE_MODEL:       # model-less failing-input search: only the direct predicates count
         dis = []
+    if pred and not known:   # at most 12 replay files per (part, class, kind of failure); the rest are counted
+        k = (case.get('part'), case.get('cls') or case.get('src'), pred[:40])
+        _SEEN[k] = _SEEN.get(k, 0) + 1
+        if _SEEN[k] > 12:
+            chk.tagc('violations-not-filed')
+            return
     if pred:
         if known:
             chk.known('S-C10a', 'MGHHeader built from bytes whose goodRASFlag is 0 resets delta/Mdc/Pxyz_c/goodRASFlag '
@@ -515,6 +550,150 @@ def report(chk, case, pred, known, dis, model_out=None):
                           '; the property predicate holds on this case', found_input=False,
                           theorem='correspondence C10/Model.v <-> nibabel header classes')
 
+
+
+# ---- part E: mutable sub-objects (struct-array buffer, extension list) are never shared between copies
+IMG_CLASS = {'analyze': ('nibabel.analyze', 'AnalyzeImage'), 'spm99': ('nibabel.spm99analyze', 'Spm99AnalyzeImage'),
+             'spm2': ('nibabel.spm2analyze', 'Spm2AnalyzeImage'), 'nifti1': ('nibabel.nifti1', 'Nifti1Image'),
+             'nifti1pair': ('nibabel.nifti1', 'Nifti1Pair'), 'nifti2': ('nibabel.nifti2', 'Nifti2Image'),
+             'nifti2pair': ('nibabel.nifti2', 'Nifti2Pair'), 'mgh': ('nibabel.freesurfer.mghformat', 'MGHImage')}
+CROSS = {'nifti1': 'nifti2', 'nifti1pair': 'nifti1', 'nifti2': 'nifti1pair', 'nifti2pair': 'nifti2',
+         'analyze': 'spm99', 'spm99': 'spm2', 'spm2': 'analyze'}
+
+
+def hstate(h):
+    """observable state of a header object: byte order, binaryblock, extension list (codes + contents)"""
+    exts = getattr(h, 'extensions', None)
+    return (be_of(h.endianness), h.binaryblock,
+            None if exts is None else [(int(e.get_code()), bytes(e.get_content() if isinstance(e.get_content(), bytes) else e._mangle(e.get_content()))) for e in exts])
+
+
+def fmt_state(st):
+    be, b, ex = st
+    ex = ex or []
+    return f'{be} {hx(b)} {len(ex)}' + ''.join(f' {c} {hx(x)}' for c, x in ex)
+
+
+def derive(suf, h, route):
+    """a header obtained from h by one of the copying routes"""
+    klass = info()['classes'][suf]['klass']
+    if route == 'copy':
+        return h.copy()
+    if route == 'from_header':
+        return klass.from_header(h, check=False)
+    if route == 'from_header_check':
+        return klass.from_header(h, check=True)
+    if route == 'constructor':
+        if hasattr(h, 'extensions'):
+            return klass(h.binaryblock, h.endianness, False, h.extensions)
+        return klass(h.binaryblock, check=False) if suf == 'mgh' else klass(h.binaryblock, h.endianness, check=False)
+    if route == 'cross':
+        return info()['classes'][CROSS[suf]]['klass'].from_header(h, check=False)
+    if route in ('image', 'image2'):
+        mod_, name = IMG_CLASS[suf]
+        icls = get_class(mod_, name)
+        data = np.zeros((2, 3, 2), dtype=np.float32)     # the image's header copy is updated to this shape, h is not
+        img = icls(data, np.eye(4), h)
+        return img.header if route == 'image' else icls(data, np.eye(4), img.header).header
+    raise ValueError(route)
+
+
+def mutate_hdr(h, mut, rng):
+    from nibabel.nifti1 import Nifti1Extension
+    if mut == 'bytes':
+        name = next(n for n in h.structarr.dtype.names if h.structarr.dtype[n].kind in 'iu' and h.structarr.dtype[n].shape == ())
+        h[name] = (int(h[name]) + 1) % 100
+    elif mut == 'append':
+        h.extensions.append(Nifti1Extension(4, b'appended'))
+    elif mut == 'clear':
+        del h.extensions[:]
+    elif mut == 'set':
+        h.extensions[:] = [Nifti1Extension(7, b'\xff')]
+    elif mut == 'shape':
+        h.set_data_shape((3, 4, 5))
+    else:
+        raise ValueError(mut)
+
+
+MUT_MODEL = {'append': 'append:4:' + hx(b'appended'), 'clear': 'clear', 'set': 'set'}
+
+
+def part_e(chk, lines, recs):
+    from nibabel.nifti1 import Nifti1Extension
+    chk_tier = getattr(chk, 'tier', 'thorough')
+    inf = info()
+    fixed = __import__('random').Random(7)
+    k = 0
+    for suf, ent in inf['classes'].items():
+        nifti = suf.startswith('nifti')
+        routes = ['copy', 'constructor'] + (['from_header', 'from_header_check', 'image', 'image2'] if suf != 'ecat' else []) + \
+                 (['cross'] if suf in CROSS else [])
+        muts = ['bytes', 'shape'] + (['append', 'clear', 'set'] if nifti else [])
+        if suf == 'ecat':
+            muts = ['bytes']
+        full = chk_tier == 'thorough'
+        combos = []
+        for route in routes:
+            for mut in muts:
+                for who in ('c', 'o'):
+                    if full:
+                        combos += [(be, nx, route, mut, who) for be in (0, 1) for nx in ((0, 1, 2) if nifti else (0,))]
+                    else:      # quick tier: byte order and number of extensions rotate
+                        j = len(combos)
+                        combos.append((j % 2, (j // 2) % 3 if nifti else 0, route, mut, who))
+        for be, nx, route, mut, who in combos:
+            if suf == 'mgh':
+                be = 1
+            for _once in (0,):
+                for _once2 in (0,):
+                    for _once3 in (0,):
+                        for _once4 in (0,):
+                            base = gen_valid(fixed, suf, be) if k % 3 else (ent['klass']() if suf == 'mgh' else ent['klass'](endianness=code_of(be)))
+                            k += 1
+                            if nifti:
+                                for j in range(nx):
+                                    base.extensions.append(Nifti1Extension(6, b'comment %d' % j))
+                            with warnings.catch_warnings():
+                                warnings.simplefilter('ignore')
+                                try:
+                                    der = derive(suf, base, route)
+                                except Exception as e:  # noqa: BLE001 - e.g. check=True refusing a generated header
+                                    chk.refusal('derive:' + type(e).__name__)
+                                    continue
+                                s_o, s_c = hstate(base), hstate(der)
+                                target, other, s_other = (der, base, s_o) if who == 'c' else (base, der, s_c)
+                                try:
+                                    mutate_hdr(target, mut, fixed)
+                                except Exception as e:  # noqa: BLE001
+                                    chk.refusal('mutate:' + type(e).__name__)
+                                    continue
+                            shared_buf = bool(np.shares_memory(base.structarr, der.structarr))
+                            shared_ext = nifti and hasattr(der, 'extensions') and base.extensions is der.extensions
+                            rec = {'suf': suf, 'be': be, 'route': route, 'mut': mut, 'who': who, 'nx': nx, 'bytes': s_o[1],
+                                   'ok': hstate(other) == s_other and not shared_buf and not shared_ext,
+                                   'detail': f'shared_buf={shared_buf} shared_ext={shared_ext} other_before={fmt_state(s_other)[:60]}... other_after={fmt_state(hstate(other))[:60]}...'}
+                            # the model covers the contents for the routes that are plain copies
+                            if route in ('copy', 'constructor', 'from_header') and mut in ('bytes', 'append', 'clear', 'set') and suf != 'mgh':
+                                mm = MUT_MODEL.get(mut) or 'bytes:' + hx(target.binaryblock)
+                                exts = s_o[2] or []
+                                rec['line'] = f'e{len(recs)} copymut {be} {hx(s_o[1])} {who} {mm} {len(exts)}' + ''.join(f' {c} {hx(x)}' for c, x in exts)
+                                rec['impl'] = f'ok shared={int(shared_buf or shared_ext)} orig={fmt_state(hstate(base))} copy={fmt_state(hstate(der))}'
+                                lines.append(rec['line'])
+                            recs.append(rec)
+                            chk.count(key=('E', suf, be, route, mut, who, nx), tag=f'E:{route}')
+                            chk.tagc(f'E:mut-{mut}')
+
+
+def part_e_compare(chk, recs, mod):
+    for i, rec in enumerate(recs):
+        case = {'part': 'E', 'cls': rec['suf'], 'be': rec['be'], 'route': rec['route'], 'mutation': rec['mut'],
+                'through': 'copy' if rec['who'] == 'c' else 'original', 'n_ext': rec['nx'], 'bytes': rec['bytes'].hex()}
+        dis = []
+        if 'line' in rec and mod.get(f'e{i}') != rec['impl']:
+            dis.append(('copy + mutation', first_diff(mod.get(f'e{i}', ''), rec['impl']), rec['impl'][-160:]))
+        pred = None if rec['ok'] else ('copies are not independent: a mutation through the ' + case['through'] +
+                                       ' shows in the other object (' + rec['detail'] + ')')
+        report(chk, case, pred, False, dis, mod.get(f'e{i}'))
 
 # ---- part B: check batteries
 MSG_CLASS = [
@@ -652,35 +831,44 @@ def random_defects(rng, suf, h):
 
 
 def run_battery(suf, b, be):
-    """implementation: check_only, check_fix, then check_only / check_fix again"""
+    """implementation: check_only, check_fix, then check_only / check_fix again.  An exception is an outcome
+    ('err raise' for the OverflowError the model knows, 'err unexpected:<Type>' for anything else), never a crash"""
     from nibabel.batteryrunners import BatteryRunner
     klass = info()['classes'][suf]['klass']
     br = BatteryRunner(klass._get_checks())
     out = {}
+
+    def err(e):
+        return 'err raise' if isinstance(e, OverflowError) else f'err unexpected:{type(e).__name__}: {str(e)[:80]}'
     with warnings.catch_warnings():
         warnings.simplefilter('ignore')
         try:
             h0 = make_hdr(suf, b, be)
             out['only'] = 'ok ' + hx(b) + ' ' + fmt_reports(br.check_only(h0))
             out['only_bytes'] = h0.binaryblock
-        except OverflowError:
-            out['only'] = 'err raise'
+        except Exception as e:  # noqa: BLE001
+            out['only'] = err(e)
         try:
             h1 = make_hdr(suf, b, be)
             h1b, reps = br.check_fix(h1)
             out['fixed'] = h1b.binaryblock
             out['fix'] = 'ok ' + hx(out['fixed']) + ' ' + fmt_reports(reps)
             out['fix_levels'] = [int(r.problem_level) for r in reps]
-        except OverflowError:
-            out['fix'] = 'err raise'
+        except Exception as e:  # noqa: BLE001
+            out['fix'] = err(e)
             return out
-        h2 = make_hdr(suf, out['fixed'], be)
-        reps2 = br.check_only(h2)
-        out['after'] = 'ok ' + hx(out['fixed']) + ' ' + fmt_reports(reps2)
-        out['after_cls'] = [(int(r.problem_level), classify(r.problem_msg)) for r in reps2]
-        h3, reps3 = br.check_fix(make_hdr(suf, out['fixed'], be))
-        out['fixed2'] = h3.binaryblock
-        out['only_levels'] = [int(r.problem_level) for r in br.check_only(make_hdr(suf, b, be))] if out['only'] != 'err raise' else None
+        if not out['only'].startswith('ok'):
+            return out
+        try:
+            h2 = make_hdr(suf, out['fixed'], be)
+            reps2 = br.check_only(h2)
+            out['after'] = 'ok ' + hx(out['fixed']) + ' ' + fmt_reports(reps2)
+            out['after_cls'] = [(int(r.problem_level), classify(r.problem_msg)) for r in reps2]
+            h3, reps3 = br.check_fix(make_hdr(suf, out['fixed'], be))
+            out['fixed2'] = h3.binaryblock
+            out['only_levels'] = [int(r.problem_level) for r in br.check_only(make_hdr(suf, b, be))]
+        except Exception as e:  # noqa: BLE001
+            out['second'] = err(e)
     return out
 
 
@@ -708,7 +896,12 @@ def part_b_compare(chk, recs, mod):
         if 'after' in o and mod.get(f'b{i}.a') != o['after']:
             dis.append(('check_only after check_fix', mod.get(f'b{i}.a', '')[-160:], o['after'][-160:]))
         pred = None
-        if o['fix'] == 'err raise' or o['only'] == 'err raise':
+        unexpected = [v for v in (o['only'], o['fix'], o.get('second', '')) if v.startswith('err unexpected')]
+        if unexpected:
+            # an exception type the model's battery does not produce on these bytes: a failure of the checks themselves
+            pred = ('running the header checks raised ' + unexpected[0][15:] + ' (the model battery yields: ' +
+                    str(mod.get(f'b{i}.x'))[-120:] + ')')
+        elif o['fix'] == 'err raise' or o['only'] == 'err raise':
             chk.refusal('check_raised_OverflowError')
         else:
             if o.get('only_bytes') != b:
@@ -759,6 +952,8 @@ def conv_impl(src_suf, dst_suf, hdr, check):
             return 'err dtype', None
         except OverflowError:
             return 'err raise', None
+        except Exception as e:  # noqa: BLE001 - an outcome, reported with the input
+            return f'err unexpected:{type(e).__name__}: {str(e)[:80]}', None
     return 'ok ' + hx(new.binaryblock), new
 
 
@@ -799,6 +994,8 @@ def part_c_case(chk, rng, src, dst, hdr, check, lines, recs):
                     if a1.astype(a1.dtype.newbyteorder('=')).tobytes() != a2.astype(a2.dtype.newbyteorder('=')).tobytes():
                         pred = f'same-named field {n} not preserved by the conversion'
                         break
+    elif res.startswith('err unexpected'):
+        pred = 'from_header raised ' + res[15:]
     else:
         chk.refusal('convert:' + res)
     rec['pred'] = pred
@@ -950,7 +1147,9 @@ def run(chk: Check):
                             conv_perturb(r, src, h)
                     for check in (False, True):
                         part_c_case(chk, r, src, dst, h, check, lines, crecs)
-    mod = run_model(PROP, lines) if HAVE_MODEL else {}
+    erecs = []
+    part_e(chk, lines, erecs)
+    mod = run_model_parallel(PROP, lines, jobs=8) if HAVE_MODEL else {}
     if not HAVE_MODEL:
         drecs, srecs = [], []
     for j, (suf, be, exp) in enumerate(drecs):
@@ -968,6 +1167,7 @@ def run(chk: Check):
     part_a_compare(chk, arecs, mod)
     part_b_compare(chk, brecs, mod)
     part_c_compare(chk, crecs, mod)
+    part_e_compare(chk, erecs, mod)
     chk.extra['unproved_statements'] = UNPROVED
     if HAVE_MODEL:
         vm_sample(chk, arecs, brecs)
@@ -1018,12 +1218,16 @@ def conv_perturb(rng, suf, h):
 
 
 UNPROVED = [
-    'C10_convert_preserves for shapes that use the FreeSurfer conventions of NIfTI-1 (large vectors with dim[1] = -1 / glmin, '
-    'ico7 27307x1x6): shape and zooms clauses not proved there; proved for all other shapes (C10_convert_preserves_shape_zooms) '
-    'and fields (C10_convert_preserves_partial); the conventions are covered by the correspondence check and the direct predicate',
-    'C10_convert_preserves with check=True (from_header followed by check_fix) is not stated as a theorem; tested',
-    'C10_copy_independent: not stated - header objects are immutable values in the model, so independence of copies is a '
-    'property of NumPy buffers; checked on the implementation only (mutating a copy / the original)',
+    'C10_convert_preserves, zooms clause, for shapes stored with the FreeSurfer conventions of NIfTI-1 (large vector, ico7) and '
+    'for check=True (pixdim may be repaired): not proved; the shape clause is proved for every shape '
+    '(C10_convert_preserves_shape_any), shape + zooms for shapes without conventions (C10_convert_preserves_shape_zooms), fields, '
+    'datatype and shape under check=True (C10_convert_check_preserves); the rest is covered by the correspondence check and the '
+    'direct predicate',
+    'a NIfTI-1 destination cannot represent the shapes (-1, 1, 1, ...) and (27307, 1, 6, ...): they read back as the FreeSurfer '
+    'convention means them (excluded by the hypothesis `readable`; format ambiguity, not generated)',
+    'C10_copy_independent is proved on the store model (fresh buffer / list ids, any mutation sequence); that the implementation '
+    'allocates fresh objects on copy() / from_header / image construction is tied by part E of the correspondence check '
+    '(np.shares_memory, `is` on the extension list, states before / after mutations); extension OBJECTS are shared by design',
     'C10_bytes_roundtrip for MGH through the class constructor holds only for goodRASFlag <> 0 '
     '(C10_mgh_from_bytes_partial + C10_mgh_from_bytes_refuted, finding S-C10a)',
 ]
@@ -1086,7 +1290,7 @@ def replay(chk, obj):
         else:
             part_a_case(fake, c['cls'], hdr_with_bytes(c['cls'], b, c['be']), c.get('valid', False), 'replay', lines, recs)
         rec = recs[0]
-        bad = (rec['rt'] != b or (rec['valid'] and rec['guess'] != c['be']) or
+        bad = (rec['rt'] != b or rec.get('ck', '').startswith('err unexpected') or (rec['valid'] and rec['guess'] != c['be']) or
                ('swap_obj' in rec and (not rec['eq1'] or not rec['eq2'] or rec['swap_fields'] != rec['fields'])) or
                not rec['copy_indep'] or not rec['copy_eq'])
         print({k: (v.hex() if isinstance(v, bytes) else v) for k, v in rec.items() if k not in ('fields', 'swap_fields')})
@@ -1094,8 +1298,16 @@ def replay(chk, obj):
         b = bytes.fromhex(c['bytes'])
         o = run_battery(c['cls'], b, c['be'])
         print({k: (v.hex() if isinstance(v, bytes) else v) for k, v in o.items()})
-        bad = 'fixed' in o and (o['fixed2'] != o['fixed'] or (all(l == 0 for l in o['only_levels']) and o['fixed'] != b)
+        bad = any(str(v).startswith('err unexpected') for v in o.values()) or 'fixed2' in o and (o['fixed2'] != o['fixed'] or (all(l == 0 for l in o['only_levels']) and o['fixed'] != b)
                                 or o.get('only_bytes') != b or any(l and cl not in UNFIXABLE for l, cl in o['after_cls']))
+    elif c['part'] == 'E':
+        erecs = []
+        part_e(types.SimpleNamespace(count=lambda **k: None, tagc=lambda *a, **k: None, refusal=lambda *a: None), lines, erecs)
+        hit = [r for r in erecs if (r['suf'], r['be'], r['route'], r['mut'], r['nx']) ==
+               (c['cls'], c['be'], c['route'], c['mutation'], c['n_ext']) and r['who'] == ('c' if c['through'] == 'copy' else 'o')]
+        print([r['detail'] for r in hit][:2])
+        bad = any(not r['ok'] for r in hit)
+        lines = []
     elif c['part'] == 'C':
         part_c_case(fake, None, c['src'], c['dst'], make_hdr(c['src'], bytes.fromhex(c['bytes']), c['be']), c['check'], lines, recs)
         print(recs[0]['res'][:200], recs[0]['pred'])
